@@ -4,14 +4,21 @@
 -/
 import TB.Spec.ExportSpec
 import TB.Lemmas.RunF
+import TB.Lemmas.RunFW
+import TB.Lemmas.RunFV
+import TB.Lemmas.RunFCex
 namespace TB
+open TB.RunF
 
 /-- well-formed tree: every inode bound to a name is below `next` (so a created file gets a fresh inode),
-    names are bound once, and no name is both a file and a directory -/
+    names are bound once, no name is both a file and a directory, and every proper prefix of a bound file name
+    is a directory (without the last clause `openCreate` could create a regular file at `a` while `a/b` is bound,
+    after which `look (a/b)` is ENOTDIR) -/
 def FsWF (fs : Fs) : Prop :=
   (∀ p i, (p, i) ∈ fs.files → i < fs.next) ∧
   (fs.files.map (·.1)).Nodup ∧
-  (∀ p i, (p, i) ∈ fs.files → fs.isDir p = false)
+  (∀ p i, (p, i) ∈ fs.files → fs.isDir p = false) ∧
+  (∀ p i, (p, i) ∈ fs.files → ∀ q ∈ Fs.properPrefixes p, fs.isDir q = true)
 
 /-- the export images of the non-padding segments of one piece are pairwise distinct files: distinct paths, and
     distinct inodes where they already exist (no hard links between export images; DESIGN §8 NoAliasAcrossExport) -/
@@ -28,19 +35,107 @@ def SegsInRange (w : Work) : Prop := ∀ s ∈ w.segs, s.off + s.len ≤ s.ent.f
     `found`, the piece verifies in the export tree afterwards — whether its segments were written, skipped because
     they were matched from their own export image, or are padding. `hlen` (a byte string with the piece's hash
     has the piece's length) rules out a short read that happens to hash correctly; `hfiles` says candidates are
-    regular files (the index only registers regular files). -/
+    regular files (the index only registers regular files).
+
+    Two hypotheses are there because the statement is false without them (both worlds are checked examples in
+    `TB.Lemmas.RunFCex`, with `H = id`):
+    * the fourth clause of `FsWF` (proper prefixes of bound file names are directories): with `a/b` bound but `a`
+      not a directory, a piece whose segment A (image `a/b`) is matched from its own image and whose segment B
+      (image `a`) is written makes `openCreate a` create a regular file at `a`; afterwards `look (a/b) = notDir`
+      and segment A cannot be read back;
+    * `hzero` (a zero-length segment belongs to an empty file — the layout fact of C06; with `SegsInRange` it
+      gives `off = 0`): a segment with `len = 0`, `off = 1` whose image exists and is empty is "read" without
+      looking at the content (`take(0)`), matches `H []`, is skipped as its own source, and `segBytesIn` then
+      fails on `off + len ≤ length`. -/
 theorem C04a_found_verifies (H : Bytes → Bytes) (st : St) (w : Work)
     (hwf : FsWF st.fs) (hdist : ImagesDistinct st.fs w) (hrange : SegsInRange w)
     (hlen : ∀ b, H b = w.hash → b.length = (w.segs.map (·.len)).sum)
+    (hzero : ∀ s ∈ w.segs, s.len = 0 → s.ent.fileLength = 0)
     (hfiles : ∀ s ∈ w.segs, ∀ paths, s.ent.searches = some paths → ∀ p ∈ paths, ∃ i, st.fs.look p = .file i)
     (hfound : (solvePiece H st w).2 = .found) :
     VerE H (solvePiece H st w).1.fs w := by
-  sorry
+  have hpw : List.Pairwise (DistR st.fs) w.segs := by
+    rw [List.pairwise_iff_getElem]
+    intro a b ha hb hab hs ht
+    exact hdist a b _ _ (List.getElem?_eq_getElem ha) (List.getElem?_eq_getElem hb) (by omega) hs ht
+  rcases hsp : solvePiece H st w with ⟨st', r⟩
+  rw [hsp] at hfound
+  simp only at hfound ⊢
+  subst hfound
+  unfold solvePiece at hsp
+  simp -iota only at hsp
+  split at hsp
+  · cases hsp
+  split at hsp
+  · rename_i seg hw
+    split at hsp
+    · -- a piece inside a padding file
+      rename_i hpad
+      split at hsp
+      · rename_i hh
+        cases hsp
+        refine verifies_of_chosen H st st w [(none, List.replicate seg.len 0)] hwf hpw hrange hlen hzero hfiles
+          (by rw [hw]; rfl) ?_ (by simpa using hh) ?_
+        · intro x hx
+          rw [hw] at hx
+          simp only [List.zip_cons_cons, List.zip_nil_right, List.mem_singleton] at hx
+          subst hx
+          refine ⟨fun _ => rfl, ?_, ?_⟩ <;> (intro hp; rw [hpad] at hp; cases hp)
+        · rw [hw]
+          simp only [List.map_cons, List.map_nil, List.zip_cons_cons, List.zip_nil_right]
+          rw [writeSegs_cons, if_pos hpad]
+          rfl
+      · cases hsp
+    · rename_i hpad
+      have hpad : seg.ent.isPad = false := by simpa using hpad
+      split at hsp
+      · cases hsp
+      · rename_i paths hs
+        have e := (RC.scanSingle_ext H w.hash seg st paths).fs
+        split at hsp <;> rename_i h1 <;> rw [h1] at e
+        · rename_i st1 src bytes
+          simp only at e
+          rw [← e] at hwf hpw hfiles
+          obtain ⟨hsrc, hb⟩ := scanSingle_sound _ _ _ _ _ h1
+          refine verifies_of_chosen H st1 st' w [(some src, bytes)] hwf hpw hrange hlen hzero hfiles
+            (by rw [hw]; rfl) ?_ (by simpa using scanSingle_hash h1) ?_
+          · intro x hx
+            rw [hw] at hx
+            simp only [List.zip_cons_cons, List.zip_nil_right, List.mem_singleton] at hx
+            subst hx
+            refine ⟨?_, ?_, ?_⟩
+            · intro hp; rw [hpad] at hp; cases hp
+            · intro _ hp; rw [hs] at hp; cases hp
+            · intro _ paths' hp
+              rw [hs] at hp; cases hp
+              exact ⟨src, hsrc, rfl, by rw [e]; exact hb⟩
+          · rw [hw]
+            simpa using hsp
+        · cases hsp
+        · cases hsp
+        · cases hsp
+  · have e := (RC.preload_ext st w.segs).fs
+    split at hsp <;> rename_i h1 <;> rw [h1] at e
+    · rename_i st1 loaded
+      simp only at e
+      split at hsp
+      · rename_i chosen hsearch
+        obtain ⟨hl1, hz1⟩ := preload_sound _ _ _ _ h1
+        obtain ⟨picks, hp1, hp2, hp3⟩ := searchProduct_picks _ _ _ hsearch
+        rw [List.nil_append] at hp1
+        subst hp1
+        have hsel := zip_compose (P := Sel st.fs) w.segs loaded chosen hl1 hp2 hz1 hp3
+        rw [← e] at hwf hpw hfiles hsel
+        exact verifies_of_chosen H st1 st' w chosen hwf hpw hrange hlen hzero hfiles (by rw [hl1, hp2]) hsel
+          (searchProduct_hash hsearch) hsp
+      · cases hsp
+    · cases hsp
+    · cases hsp
 
 /-- the tree stays well-formed under every operation of a piece evaluation -/
 theorem C04a_wf_preserved (H : Bytes → Bytes) (st : St) (w : Work) (hwf : FsWF st.fs) :
-    FsWF (solvePiece H st w).1.fs := by
-  sorry
+    FsWF (solvePiece H st w).1.fs :=
+  (solvePiece_loc H st w).wf hwf
 
 /-- frame: evaluating a piece changes no file other than the export images of its own non-padding segments —
     every inode that is not the image of such a segment (before or after) keeps its content, and every name other
@@ -49,6 +144,9 @@ theorem C04a_frame (H : Bytes → Bytes) (st : St) (w : Work) (hwf : FsWF st.fs)
     (hp : st.fs.inoOf p = some i)
     (hnot : ∀ s ∈ w.segs, s.ent.isPad = false → s.ent.fullTarget ≠ p ∧ st.fs.inoOf s.ent.fullTarget ≠ some i) :
     (solvePiece H st w).1.fs.inoOf p = some i ∧ (solvePiece H st w).1.fs.content i = st.fs.content i := by
-  sorry
+  have L := solvePiece_loc H st w
+  refine ⟨L.ino_pres p i hp, L.content i (inoOf_lt hwf hp) ?_⟩
+  rintro t ⟨s, hs, hpad, rfl⟩
+  exact (hnot s hs hpad).2
 
 end TB
